@@ -128,6 +128,8 @@ def fp(v, depth=0):
         return ["type", v.__name__]
     if isinstance(v, BaseException):
         return ["exc", type(v).__name__]
+    if hasattr(v, "_sim_fp"):
+        return v._sim_fp()
     return ["obj", type(v).__name__]
 
 
